@@ -56,7 +56,7 @@ def rule_flatten(ctx):
     reading counts when it ends without a complaint; when it complains - a shape it does not know as much as a defect - the table decides."""
     from ..report import Trial
     from ..scenario_rule import rule_scenarios
-    trial = Trial(ctx)
+    trial = Trial(ctx, about=[RS + 'flatten'])
     try:
         _rule_flatten_structural(trial)
     except AnalysisError as e:
